@@ -33,4 +33,10 @@ def cases():
         dict(kind='char', checks=[], name='Dd', parts=[('id', 'Ee'), ('id', 'char'), ('range', C('a'), C('z'))]),
         dict(kind='char', checks=[], name='Ee', parts=[('range', C('0'), C('9'))])],
         inputs=[('S', 'ab'), ('S', 'é9'), ('S', 'a'), ('S', '')]))
+    # known finding K3 (C03): a field named like a unit-struct rule makes the generated code fail to compile (E0530)
+    out.append(dict(id='corpusK3', tags=['corpus', 'known_K3'], solo=True, rules=[
+        dict(kind='rule', dirs=['export'], name='R', body=choice(seq(F('foo', 'Bar'), lit('x')))),
+        dict(kind='rule', dirs=[], name='foo', body=choice(seq(lit('a')))),
+        dict(kind='rule', dirs=[], name='Bar', body=choice(seq(lit('b'))))],
+        inputs=[('R', 'bx')]))
     return out
